@@ -174,7 +174,7 @@ def main(budget):
                     if name == "nested" and not same(a, got["k"][2][0]):
                         return dict(violation=True, cases=cases, what="second occurrence in the container differs", witness=dict(dtype=str(a.dtype), shape=a.shape))
             if not a.dtype.hasobject:
-                for mode in ("r", "r+", "c", "w+"):
+                for mode in ("r", "r+", "c", "w+", "readonly", "readwrite", "copyonwrite", "write"):  # joblib's modes and numpy's long spellings
                     cases += 1
                     path = os.path.join(root, "m.pkl")
                     joblib.dump({"pad": "x" * rnd.randint(0, 40), "arr": a, "after": [1, 2]}, path)
